@@ -245,7 +245,15 @@ PER_SOURCE_CAP = 3000
 
 
 def add_pending(cx, v):
-    key = (v["kind"], v["source"])
+    """keep a mismatch for the report; mismatches that already carry the signature of a proposed/known finding are
+    kept up to a cap per source (the rest is counted), everything else is always kept"""
+    v["sig"] = None
+    if v["kind"] in ("parse-mismatch", "trace-line-rejected", "lexer-binding") and v["source"] != "spelling-table":
+        v["sig"] = candidate_signature(v)
+    if v["sig"] in (None, "trailing-comma?"):
+        cx.pending.append(v)
+        return
+    key = (v["sig"], v["source"])
     n = cx.pending_per_source.get(key, 0)
     cx.pending_per_source[key] = n + 1
     if n < PER_SOURCE_CAP:
@@ -345,12 +353,13 @@ def lexer_binding(cx):
                                "expected": ["other", k], "impl": ["other", str(tk)]})
 
 
-def g_sequences(cx, maxlen, merged):
+def g_sequences(cx, maxlen_of, merged):
     """merged: all alphabets in one TLC run (quick tier); else one run per alphabet"""
     rep = cx.rep
     n_alpha = None
     a = 0 if merged else 1
     while True:
+        maxlen = maxlen_of(a)
         res = tlc_run("MC_Grammar", "seq%d" % a,
                       "CONSTANTS MaxLen = %d\n          Alpha = %d\nSPECIFICATION Spec\n"
                       "INVARIANTS CheckAndEmit\nCHECK_DEADLOCK FALSE\n" % (maxlen, a),
@@ -370,11 +379,18 @@ def g_sequences(cx, maxlen, merged):
         cases = res.cases.get("CASE", [])
         rows = run_harness_cases(cx, "seq%d" % a, [c["t"] for c in cases], [c["e"] for c in cases])
         acc = 0
+        rej = ["REJECT"]
+        fast = 0
         for c, r in zip(cases, rows):
+            if c["e"] == rej and r["o"] == rej and "lexbad" not in r:
+                fast += 1           # the common case: rejected by both, in every variant
+                continue
             compare(cx, "G-sequences/alphabet%d" % c["a"], c["t"], c["e"], r)
-            if c["e"] != ["REJECT"]:
+            if c["e"] != rej:
                 acc += 1
+        rep.add("evaluations", fast * cx.variants)
         rep.add("token_sequences", len(cases))
+        rep.add("traces_validated_against_impl", len(cases))
         rep.add("token_sequences_accepted_by_spec", acc)
         for c in cases[len(cases) // 3: len(cases) // 3 + 400]:
             if c["e"] != ["REJECT"] and inner_nodes(c["e"]) >= 2:
@@ -419,6 +435,7 @@ def g_trees(cx, nodes, merged):
             compare(cx, "G-trees/family%d" % f, t, e, r)
         rep.add("trees", len(cases))
         rep.add("tree_renderings", len(todo))
+        rep.add("traces_validated_against_impl", len(todo))
         if cases:
             c = cases[len(cases) // 2]
             rep.sample({"tree": tree_to_sexpr(c["e"]), "minimal": c["m"], "full": c["f"]}, limit=6)
@@ -498,7 +515,8 @@ def j_traces(cx, ntraces, trees, soup, depth):
                 good.append(r)
         nv.write_ndjson(p, [{"toks": r["toks"], "out": r["out"]} for r in good])   # what the spec judges
         paths.append((p, good))
-    results = nv.validate_traces_parallel("Trace_Grammar", [p for p, _ in paths], timeout=1500, jobs=4)
+    # judged line by line (lenient configuration: every disagreeing line is reported, all lines are consumed)
+    results = nv.validate_traces_parallel("Trace_Grammar", [p for p, _ in paths], cfg="Trace_Grammar_lenient.cfg", timeout=1500, jobs=4)
     for (p, rows), r in zip(paths, results):
         n = len(rows)
         rep.add("evaluations", n)
@@ -508,16 +526,14 @@ def j_traces(cx, ntraces, trees, soup, depth):
         for x in rows:
             if x["out"] != ["REJECT"] and inner_nodes(x["out"]) >= 2:
                 cx.nontrivial.add(x["text"])
-        if not r["accepted"]:
-            r2 = nv.validate_trace("Trace_Grammar", p, cfg="Trace_Grammar_lenient.cfg")
-            if r2["res"].cases.get("REJECTED"):
-                raise nv.ToolError("lenient trace validation did not consume all lines of %s" % p)
-            for c in r2["res"].cases.get("CASE", []):
-                x = rows[c["line"] - 1]
-                add_pending(cx, {"kind": "trace-line-rejected", "source": "J/" + os.path.basename(p), "line": c["line"],
-                                   "tokens": " ".join(t[0] + (":" + t[1] if t[1] else "") for t in x["toks"]), "toks": x["toks"],
-                                   "text": x["text"], "pieces": x.get("pieces"), "expected": c["expected"], "impl": x["out"], "msg": x.get("msg", ""),
-                                   "expected_sexpr": tree_to_sexpr(c["expected"]), "impl_sexpr": tree_to_sexpr(x["out"])})
+        if r["res"].cases.get("REJECTED") or r["violated"]:
+            raise nv.ToolError("trace validation did not consume all lines of %s (%s)" % (p, r["violated"]))
+        for c in r["res"].cases.get("CASE", []):
+            x = rows[c["line"] - 1]
+            add_pending(cx, {"kind": "trace-line-rejected", "source": "J/" + os.path.basename(p), "line": c["line"],
+                             "tokens": " ".join(t[0] + (":" + t[1] if t[1] else "") for t in x["toks"]), "toks": x["toks"],
+                             "text": x["text"], "pieces": x.get("pieces"), "expected": c["expected"], "impl": x["out"], "msg": x.get("msg", ""),
+                             "expected_sexpr": tree_to_sexpr(c["expected"]), "impl_sexpr": tree_to_sexpr(x["out"])})
     rows = paths[0][1]
     deep = max(rows, key=lambda x: inner_nodes(x["out"]) if x["out"] != ["REJECT"] else -1)
     rep.sample({"J_text": deep["text"], "parsed": tree_to_sexpr(deep["out"])[:300]}, limit=8)
@@ -528,13 +544,9 @@ def classify_and_report(cx):
     rep = cx.rep
     cands = []
     for v in cx.pending:
-        v["sig"] = None
-        if v["kind"] in ("parse-mismatch", "trace-line-rejected", "lexer-binding") and v["source"] != "spelling-table":
-            s = candidate_signature(v)
-            if s == "trailing-comma?":
-                cands.append(v)
-            else:
-                v["sig"] = s
+        if v.get("sig") == "trailing-comma?":
+            v["sig"] = None
+            cands.append(v)
     # confirm at most 4000 candidates against the spec (more than that is not a narrow finding any more)
     confirm_trailing_comma(cands[:4000], cx.sc)
     summary = {}
@@ -550,7 +562,8 @@ def classify_and_report(cx):
         nv.write_ndjson(os.path.join(cx.sc, "mismatches.ndjson"), cx.pending)
     if cx.not_listed:
         rep.set("mismatches_not_listed", cx.not_listed)
-        nv.log("%d further mismatches beyond %d per source were counted but not listed" % (cx.not_listed, PER_SOURCE_CAP))
+        nv.log("%d further mismatches with the signature of a known/proposed finding (beyond %d per source) were counted "
+               "but not listed" % (cx.not_listed, PER_SOURCE_CAP))
 
 
 def self_tests(cx, jpaths):
@@ -608,12 +621,13 @@ def run(tier, seed):
     sc = nv.scratch("c10")
     cx = Ctx(rep, sc, seed, tier)
     if tier == "quick":
-        g_sequences(cx, 5, merged=True)
+        g_sequences(cx, lambda a: 5, merged=True)
         g_trees(cx, 5, merged=True)
         g_literals(cx, [("dec", 5), ("based", 6)])
         jpaths = j_traces(cx, 2, 1200, 800, 6)
     else:
-        g_sequences(cx, 6, merged=False)
+        # length 6 where precedence, conditionals and calls with two arguments live; 5 for the lexical alphabets
+        g_sequences(cx, lambda a: 5 if a in (8, 9, 10) else 6, merged=False)
         g_trees(cx, 6, merged=False)
         g_literals(cx, [("dec", 6), ("based", 7)])
         jpaths = j_traces(cx, 8, 3000, 2000, 6)
